@@ -9,8 +9,8 @@ cfg  := C<id>,…;S<id>:c|e,…;D<id>,…          collection events ; status va
 id   := n<int>.<int>…  |  t<hex of ASCII>       (`n` alone = empty numeric item)
 val  := n<int>.… | f<num>/<k> | t<hex> | l<id>+<id>…
 op   := R<rptid>=<vid>,…;…   S2F33     L<ceid>=<rptid>,…;…   S2F35     E<0|1>:<ceid>,…   S2F37
-        Q<ceid>  S6F15       T<ceid>  trigger      V<id>=<val>  SV update      W<id>=<val>  DV update
-answer := ok (<out>@<reports>@<links>)*         out := a<n> | x | r<ceid>[<rptid>(<val>,…);…] | - | !
+        Q<ceid>  S6F15       T<ceid>,…  trigger     V<id>=<val>  SV update      W<id>=<val>  DV update
+answer := ok (<out>@<reports>@<links>)*         out := a<n> | x | r<ceid>[<rptid>(<val>,…);…] | - | r…|r…(!)   (trigger: the S6F11 bodies in order, `-` for none, `!` appended if the sender died)
 ```
 -/
 namespace SecsModel.Drv.GemEv
@@ -83,7 +83,7 @@ def parseOp (w : String) : Option Op :=
     let ceed ← parseBool (String.singleton b)
     pure (Op.s2f37 ceed (← parseIds (String.ofList rest)))
   | 'Q' :: rest => (parseId (String.ofList rest)).map Op.s6f15
-  | 'T' :: rest => (parseId (String.ofList rest)).map Op.trigger
+  | 'T' :: rest => (parseIds (String.ofList rest)).map Op.trigger
   | 'V' :: rest => match (String.ofList rest).splitOn "=" with
     | [i, v] => do pure (Op.setSv (← parseId i) (← parseVal v))
     | _ => none
@@ -92,12 +92,16 @@ def parseOp (w : String) : Option Op :=
     | _ => none
   | _ => none
 
+def showReport (c : Id) (rpts : List (Id × List Val)) : String :=
+  "r" ++ showId c ++ "[" ++ ";".intercalate (rpts.map (fun p => showId p.1 ++ "(" ++ ",".intercalate (p.2.map showVal) ++ ")")) ++ "]"
+
 def showOut : Out → String
   | .ack (.code n) => s!"a{n}"
   | .ack .abort => "x"
-  | .report c rpts => "r" ++ showId c ++ "[" ++ ";".intercalate (rpts.map (fun p => showId p.1 ++ "(" ++ ",".intercalate (p.2.map showVal) ++ ")")) ++ "]"
+  | .report c rpts => showReport c rpts
   | .nothing => "-"
-  | .crashed => "!"
+  | .sent msgs crashed =>
+    (if msgs.isEmpty && !crashed then "-" else "|".intercalate (msgs.map (fun m => showReport m.1 m.2))) ++ (if crashed then "!" else "")
 
 def showConf (c : Config) : String :=
   ";".intercalate (c.reports.map (fun e => showId e.1 ++ "=" ++ showIds e.2)) ++ "@" ++
